@@ -188,7 +188,29 @@ func (s *zzMSender) AppendTrailers(context.Context, api.HeaderMap) error { s.end
 
 type zzMSSC struct{ types.ServerStreamConnection }
 
-func (zzMSSC) Protocol() types.ProtocolName { return "Http1" }
+func (zzMSSC) Protocol() types.ProtocolName { return "zzp" }
+
+// zzMapping gives the proxy a status code for the scripted upstream's replies.
+type zzMapping struct{}
+
+func (zzMapping) MappingHeaderStatusCode(ctx context.Context, h api.HeaderMap) (int, error) {
+	if h == nil {
+		return 0, protocol.ErrNoMapping
+	}
+	if v, ok := h.Get("status"); ok && v == "503" {
+		return 503, nil
+	}
+	if _, ok := h.Get("status"); ok {
+		return 200, nil
+	}
+	return 0, protocol.ErrNoMapping
+}
+
+type zzSF struct{ types.ProtocolStreamFactory }
+
+func zzRegisterProtocol() {
+	protocol.RegisterProtocol("zzp", func(context.Context, types.Host) types.ConnectionPool { return nil }, zzSF{}, zzMapping{})
+}
 func (zzMSSC) EnableWorkerPool() bool       { return false }
 
 type zzMConn struct{ api.Connection }
@@ -208,6 +230,7 @@ func (zzMRW) GetRouters() types.Routers { return zzMRouters{} }
 var zzTryTimeout time.Duration
 
 func zzMachine(numRetries uint32, retryOn bool) (*downStream, *zzMSender, *zzMPool, *proxy, context.Context) {
+	zzRegisterProtocol()
 	ctx := variable.NewVariableContext(context.Background())
 	ctx = buffer.NewBufferPoolContext(ctx)
 	info := zzNewInfo(0)
@@ -287,7 +310,7 @@ func VerifC03_EventMachine() {
 	active0 := p.stats.DownstreamRequestActive.Count()
 	done := false
 	clientGone := false
-	raced := false // the global timer expired while an upstream reset was pending and unprocessed
+	raced := false // a timer expired while an upstream outcome (reset or reply) was recorded and unprocessed
 	go func() {
 		ds.OnReceive(ctx, protocol.CommonHeader{}, nil, nil)
 		done = true
@@ -299,7 +322,8 @@ func VerifC03_EventMachine() {
 		switch verif.Choose("event", 4) {
 		case 0: // the upstream answers
 			if ur := ds.upstreamRequest; ur != nil && ur.requestSender != nil {
-				ur.OnReceive(ctx, protocol.CommonHeader{}, nil, nil)
+				status := []string{"200", "503"}[verif.Choose("status", 2)]
+				ur.OnReceive(ctx, protocol.CommonHeader{"status": status}, nil, nil)
 				verif.Cover("reply")
 			}
 		case 1: // the upstream stream is reset
@@ -309,8 +333,8 @@ func VerifC03_EventMachine() {
 		case 2: // an armed timer (per-try or global) expires
 			if n := verif.NumTimers(); n > 0 {
 				verif.EngineOnly("timer expiry is driven by the engine's timer table")
-				if ds.upstreamReset == 1 {
-					raced = true
+				if ds.upstreamReset == 1 || ds.upstreamResponseReceived == 1 {
+					raced = true // an upstream outcome is recorded but the worker has not processed it yet
 				}
 				verif.FireTimer(verif.Choose("timer", n))
 				verif.Cover("timeout")
@@ -328,6 +352,11 @@ func VerifC03_EventMachine() {
 		}
 	}
 	verif.Settle()
+	// the upstream stays silent from here on: every armed timeout expires in turn
+	for k := 0; k < 4 && !done && verif.Symbolic() && verif.NumTimers() > 0; k++ {
+		verif.FireTimer(0)
+		verif.Settle()
+	}
 	verif.Assert(sender.headers <= 1, "the client got two responses")
 	if done {
 		if !clientGone {
@@ -340,14 +369,15 @@ func VerifC03_EventMachine() {
 		}
 		verif.Cover("finished")
 	} else {
+		verif.Cover("waiting")
 		if verif.Symbolic() {
+			// still waiting although every timeout has expired
 			if raced {
-				verif.Assert(verif.NumTimers() > 0, "engine: global timeout expired while a retriable upstream reset was pending: the retry runs with no timeout armed (would hang)")
+				verif.Assert(false, "engine: global timeout expired while a retriable upstream outcome was pending: the retry runs with no timeout armed (would hang)")
 			} else {
-				verif.Assert(verif.NumTimers() > 0, "engine: the request is waiting for the upstream with no timeout armed (would hang)")
+				verif.Assert(false, "engine: the upstream stays silent and every timeout has expired, but the request is still waiting (hangs)")
 			}
 		}
-		verif.Cover("waiting")
 	}
 	verif.Cover("end")
 }
